@@ -20,6 +20,8 @@ sys.path.insert(0, os.path.dirname(os.path.abspath(__file__)))
 from gen import core  # noqa: E402
 
 CHECKS = {
+    "C01": "gen.c01",
+    "C02": "gen.c02",
     "C03": "gen.c03",
     "C04": "gen.c04",
     "C05": "gen.c05",
